@@ -41,6 +41,8 @@ def run_case(run, drv, files, pl, single, tag, kinds=KINDS):
             why = cr.check_v2_view(impl.decode(raw), files, pl, single, name)
             if why:
                 run.fail("impl-vs-spec", dict(case, creator=kind), {"why": why})
+            cr.ask_createfull(drv, ("createfull", dict(case, creator=kind), raw), kind, files, pl,
+                              single, name, raw)
         # tie to the Lean hasher models: one file of the case
         rel, blob = max(files, key=lambda f: len(f[1]))
         if len(blob):
@@ -52,7 +54,7 @@ def run_case(run, drv, files, pl, single, tag, kinds=KINDS):
 
 
 def settle_model(run, drv, scaled=False):
-    for (case, rel, got, blob, pl), _, out in drv.run():
+    for (case, rel, got, blob, pl), _, out in cr.settle_createfull(run, drv.run()):
         run.model_checked += 1
         model = cr.parse_v2(out)
         if model is None:
